@@ -351,6 +351,11 @@ def m_iter_zip(c):
     return _adaptor('zip', a=to_iter(c.st, c.args[0]), b=to_iter(c.st, c.args[1]))
 
 
+@model('once', 'std::iter::once', 'core::iter::once')
+def m_iter_once(c):
+    return IterObj([c.args[0]], 0, 'list')
+
+
 @pattern(r'^<.* as Iterator>::chain$')
 def m_iter_chain(c):
     return _adaptor('chain', a=to_iter(c.st, c.args[0]), b=to_iter(c.st, c.args[1]))
